@@ -9,7 +9,7 @@ import os, subprocess
 import common
 
 THEOREMS24 = ["Osmt.Properties.C24_alloc_fresh", "Osmt.Properties.C24_alloc_inv", "Osmt.Properties.C24_release_inv", "Osmt.Properties.C24_empty_inv", "Osmt.Properties.C24_every_schedule_inv", "Osmt.Properties.C24_every_schedule_exclusive", "Osmt.Properties.C24_every_schedule_alloc_unowned"]
-THEOREMS25 = ["Osmt.Properties.C25_stop_unknown_or_same", "Osmt.Properties.C25_stop_before_start", "Osmt.Properties.C25_definitive_same", "Osmt.Properties.C25_undecided_unknown", "Osmt.Properties.C25_later_same"]
+THEOREMS25 = ["Osmt.Properties.C25_stop_unknown_or_same", "Osmt.Properties.C25_stop_before_start", "Osmt.Properties.C25_definitive_same", "Osmt.Properties.C25_undecided_unknown", "Osmt.Properties.C25_later_same", "Osmt.Properties.C25_two_level_unknown_or_same"]
 
 
 def run(tier, pid="C24"):
